@@ -429,7 +429,13 @@ class EmptyAcc(FnSpec):
 
 def make_specs():
     W = World()
-    return [DiffInit(W, "wf0"), DiffInit(W, "laws"), DiffInit(W, "dev")] + [Accessor(W, n) for n in ("paths", "inode", "path", "isdir", "mtime", "size", "stat_info")] + [SubSpec(W), EmptyAcc(W, "path"), EmptyAcc(W, "paths")]
+    out = [DiffInit(W, "wf0"), DiffInit(W, "laws"), DiffInit(W, "dev")] + [Accessor(W, n) for n in ("paths", "inode", "path", "isdir", "mtime", "size", "stat_info")] + [SubSpec(W), EmptyAcc(W, "path"), EmptyAcc(W, "paths")]
+    # the laws are proved for well-formed snapshots (every path's identity is in the index): what the constructor establishes
+    from specs import c10
+    si = c10.SnapInit(c10.WalkWorld())
+    si.prop = PROP
+    out.append(si)
+    return out
 
 
 def lemmas():
@@ -449,7 +455,7 @@ def lemmas():
     return out
 
 
-EXPECTED_CLAUSES = ["post[pathset:=>]", "post[pathset:<=]", "post[moved-iff", "post[created-iff", "post[deleted-iff", "post[modified-iff", "post[kind:created]", "post[kind:moved]",
+EXPECTED_CLAUSES = ["DirectorySnapshot.__init__.post[the root's own inode is in the index", "post[pathset:=>]", "post[pathset:<=]", "post[moved-iff", "post[created-iff", "post[deleted-iff", "post[modified-iff", "post[kind:created]", "post[kind:moved]",
                     "post[self-diff-empty]", "post[ignore_device:files_moved-empty]", "loop5.preserved", "lemma[swap", "post[sub=Diff", "post[inode=key]"]
 
 CANARIES = [
